@@ -683,8 +683,10 @@ func (e *Exec) modLocs(clauses []Clause, env *SpecEnv) []modLoc {
 				})
 				continue
 			}
-			if x.Fun == "repr" && len(x.Args) == 1 {
-				// the representation of a container value: per kind, its fields and backing array
+			if (x.Fun == "repr" || x.Fun == "fields") && len(x.Args) == 1 {
+				// repr: the representation of an interface value: per kind, its fields and the backing arrays of its slice fields
+				// fields: the fields only (the storage the slice fields point to is not written)
+				fieldsOnly := x.Fun == "fields"
 				v := e.tr(x.Args[0], env)
 				if v.T.Sort != SCont {
 					e.specFail("repr() of a non-interface value")
@@ -700,7 +702,7 @@ func (e *Exec) modLocs(clauses []Clause, env *SpecEnv) []modLoc {
 						key := fieldKey(owner, f.Name())
 						e.heapInit(key, f.Type())
 						out = append(out, modLoc{key: key, ref: ref, cond: kc})
-						if sl, ok := types.Unalias(f.Type()).Underlying().(*types.Slice); ok {
+						if sl, ok := types.Unalias(f.Type()).Underlying().(*types.Slice); ok && !fieldsOnly {
 							ek := elemKey(sl.Elem())
 							e.heapInit(ek, sl.Elem())
 							sv := e.loadField(env.cur, owner, f, ref)
